@@ -494,6 +494,46 @@ def rule_index(prog):
                 res.fn(f)
                 res.inst(key, where="%s:%s" % (f.file, f.line_of(bi, si)), ok=not bad)
                 res.oblige(not bad)
+                # a selection made by a key action (lrld-next / prev / num) is computed from the current selection and the
+                # number of files only - not from the index of the file that is loaded, which differs while a reload is pending
+                if f.norm.endswith("Kanata::handle_keystate_changes"):
+                    from kq.analysis import control_deps
+                    flds, seen_l, seen_b = set(), set(), set()
+                    ow, bw = list(rvalue_operands(st["rv"])), [bi]
+                    while ow or bw:
+                        while ow:
+                            o = ow.pop()
+                            if not is_place(o):
+                                continue
+                            flds |= {x for (a_, v_, x) in proj_fields(o) if (a_ or "").endswith("kanata::Kanata")}
+                            if o["l"] in seen_l:
+                                continue
+                            seen_l.add(o["l"])
+                            for (db, di, kind, payload) in f.defs().get(o["l"], []):
+                                bw.append(db)
+                                if kind == "assign":
+                                    ow.extend(rvalue_operands(payload))
+                                elif kind == "call":
+                                    ow.extend(payload["args"])
+                        while bw:
+                            b0 = bw.pop()
+                            if b0 in seen_b:
+                                continue
+                            seen_b.add(b0)
+                            for S in control_deps(f, b0):
+                                t = f.term(S)
+                                if t.get("dty") != "bool":
+                                    continue          # stop at the match on the action (an enum discriminant)
+                                ow.append(t["d"])
+                                bw.append(S)
+                    extra = sorted(flds & {"loaded_cfg_idx"})
+                    res.inst(key + "/inputs", where="%s:%s" % (f.file, f.line_of(bi, si)), depends_on=sorted(flds), ok=not extra)
+                    res.oblige(not extra)
+                    if extra:
+                        res.viol(key + "/inputs", "%s:%s" % (f.file, f.line_of(bi, si)),
+                                 "the file index chosen by a live-reload key action depends on Kanata.%s: `loaded_cfg_idx` and `cur_cfg_idx` "
+                                 "are equal only while no reload is pending, so a second lrld-next / lrld-prev pressed while the first is "
+                                 "deferred wraps at the wrong place (wrong file, or an index past the end of cfg_paths)" % ", ".join(extra))
                 if bad:
                     res.viol(key, "%s:%s" % (f.file, f.line_of(bi, si)),
                              "the index stored in cur_cfg_idx is computed with %s: after wrapping below zero the value is usize::MAX, and "
